@@ -141,6 +141,13 @@ Put(v, p, new) ==
 (* Compact JSON text of a value, for string tokens that need no escaping   *)
 (* (the Document-level alphabets only use such tokens).                    *)
 (***************************************************************************)
+\* how the bytes of a string token appear inside a JSON string literal, for the
+\* few tokens of the Document-level alphabets that are not plain text (the
+\* harness reports the serialization with bytes outside printable ASCII as %XX)
+SerTok(s) ==
+  CASE s = "a%00b" -> "a\\u0000b"
+    [] OTHER -> s
+
 RECURSIVE Ser(_)
 RECURSIVE SerSeq(_, _)
 SerSeq(seq, first) ==
@@ -149,8 +156,8 @@ SerSeq(seq, first) ==
 Ser(v) ==
   CASE v.t \in {"n", "x"} -> "null"
     [] v.t \in {"b", "i", "f", "r"} -> v.s
-    [] v.t = "s" -> "\"" \o v.s \o "\""
-    [] v.t = "m" -> "\"" \o v.s \o "\":" \o Ser(v.c[1])
+    [] v.t = "s" -> "\"" \o SerTok(v.s) \o "\""
+    [] v.t = "m" -> "\"" \o SerTok(v.s) \o "\":" \o Ser(v.c[1])
     [] v.t = "a" -> "[" \o SerSeq(v.c, TRUE) \o "]"
     [] v.t = "o" -> "{" \o SerSeq(v.c, TRUE) \o "}"
 
@@ -171,15 +178,29 @@ SlotsIn(v, X) ==
 
 (***************************************************************************)
 (* What the harness observes of a value through the public read API: the   *)
-(* tree decorated, at every node, with size(), nesting() and as<bool>().   *)
+(* tree decorated, at every node, with size(), nesting(), as<bool>() and,   *)
+(* for strings, the numeric conversions (which must not depend on how the  *)
+(* string is stored).                                                      *)
 (***************************************************************************)
+\* as<long long>() "/" as<double>() of a string value: numeric-looking strings
+\* convert like the number they spell, every other string gives 0 (the table
+\* lists the numeric-looking tokens of the Document-level alphabets; the full
+\* number grammar is Numbers.tla's business)
+NumView(s) ==
+  CASE s = "42"   -> "42/42"
+    [] s = "1.5"  -> "1/1.5"
+    [] s = "-3e2" -> "-300/-300"
+    [] s = "7"    -> "7/7"
+    [] OTHER      -> "0/0"
+
 RECURSIVE Proj(_)
 Proj(v) ==
   [t |-> v.t, s |-> v.s,
    c |-> [j \in 1..Len(v.c) |-> Proj(v.c[j])],
    z |-> IF v.t = "m" THEN 0 ELSE Size(v),
    n |-> IF v.t = "m" THEN 0 ELSE Nesting(v),
-   b |-> IF v.t = "m" THEN FALSE ELSE Truthy(v)]
+   b |-> IF v.t = "m" THEN FALSE ELSE Truthy(v),
+   q |-> IF v.t = "s" THEN NumView(v.s) ELSE ""]
 
 \* inverse of Proj on logged values (drops the decorations)
 RECURSIVE Strip(_)
